@@ -36,7 +36,7 @@ CHECKS = {
    note="'about 11 minutes' is asserted as 660 s after max(call, first instant from which a contact answers continuously); with routers the deadline is not asserted (the statement restricts it to plain nodes).",
    technique="stateless exploration of the real node over configurations, outage patterns and single deviations"),
  "C16": dict(engine="E1-simworld", category="model_checking", design="§3 C16",
-   text="Differential: a fresh node joining a mesh of 2..4 real nodes issues 1-3 searches at offsets {0, 1 ms, after first answer, just before/at/after bootstrap completion} x contact sets x latencies {1,480,990}, searches at 7 offsets around the 5 s re-bootstrap, router-only fresh nodes; each run is compared with the identical run in which the searches are issued right after bootstrapped(); plus <= 1 (thorough 2) deviation {1,480,990 ms, drop} on the fresh node's bootstrap datagrams with the same choice prefix in both runs. Uplink outages of 2..40 s during the first attempt; if neither the early nor the late search ends although the node reports good contacts, that is a violation.",
+   text="Differential: a fresh node joining a mesh of 2..4 real nodes issues 1-3 searches at offsets {0, 1 ms, after first answer, just before/at/after bootstrap completion} x contact sets x latencies {1,480,990}, searches at 7 offsets around the 5 s re-bootstrap, router-only fresh nodes; each run is compared with the identical run in which the searches are issued right after bootstrapped(); plus <= 1 (thorough 2) deviation {1,480,990 ms, drop} on the fresh node's bootstrap datagrams with the same choice prefix in both runs. Uplink outages of 3 / 12 / 35 / 70 s from the start of the fresh node, searches at 0 / 1 / 29 / 31 s; if neither the early nor the late search ends although the node reports good contacts, that is a violation.",
    note="Sets of distinct peers are compared (multiplicities depend on how many nodes answered).",
    technique="stateless deviation-bounded exploration with a differential oracle"),
  "C17": dict(engine="E1-simworld", category="model_checking", design="§3 C17",
@@ -44,7 +44,7 @@ CHECKS = {
    note="The statement quantifies over transaction ids up to 32 bytes; longer echoed ids are checked for size only (whether they are answered is not asserted).",
    technique="exhaustive parameter sweep of the real node with a universal wire monitor"),
  "C18": dict(engine="E1-simworld", category="model_checking", design="§3 C18",
-   text="One real node with 1..3 responsive contacts and no routers (re-bootstrap every ~5 s), with/without hourly outages, latencies {1,20,200} ms, 10 min (quick) / 1 h, 6 h (thorough) of virtual time; refresh rounds and timer-queue length read from hook probes every virtual second; every 60 s window: rounds <= 11 + bootstrap attempts on the wire, queue <= 4 (<= 40 with search traffic); also with a hearsay node towards which every send fails, and with announcing searches every ~3 s while send_to takes 0/40/300 ms. bootstrapped() polled every 100 ms .. 1 s for the whole run.",
+   text="One real node with 1..3 responsive contacts and no routers (re-bootstrap every ~5 s), with/without hourly outages, latencies {1,20,200} ms, 10 min (quick) / 1 h, 6 h (thorough) of virtual time; refresh rounds and timer-queue length read from hook probes every virtual second; every 60 s window: rounds <= 11 + bootstrap attempts on the wire, queue <= 4 (<= 40 with search traffic); also with a hearsay node towards which every send fails, and with announcing searches every ~3 s while send_to takes 0/40/300 ms. bootstrapped() polled every 200 ms for the whole run (1 and 3 contacts).",
    note="Deterministic single execution per configuration (the property quantifies over run lengths and re-bootstrap counts). Completions are bounded by attempts seen on the wire.",
    technique="exhaustive sweep of run lengths/configurations of the real node under virtual time with probe oracles"),
  "C06": dict(engine="E2-space", category="model_checking", design="§3 C06",
